@@ -184,7 +184,7 @@ pub fn check_case(c: &Case) -> PResult {
     }
 }
 
-fn arb_case(kw: bool) -> BoxedStrategy<Case> {
+pub fn arb_case(kw: bool) -> BoxedStrategy<Case> {
     (arb_doc(kw), arb_layout()).prop_map(|(doc, layout)| Case { doc, layout }).boxed()
 }
 
